@@ -286,6 +286,38 @@ static void fixed(void) {
     if (handles_open() != 0) { vh_violation("C20:handle:stream-left-open-after-with-block", "handle open after the with block"); }
     vh_count("with_blocks");
   }
+  /* a File object on the stack, built and finalised in place: the destructor closes exactly once, the object then
+     refuses every operation like any File that is not open, may be constructed again, and a second destruct closes
+     nothing */
+  for (int round = 0; round < 3; round++) {
+    long o0 = opens, c0 = closes;
+    var f = $(File, NULL);
+    var exc = NULL;
+    vh.oplen = 0; vh.oplog[0] = 0; vh.nops = 0;
+    vh_op("f = $(File); construct(f, path, w); swrite; destruct(f); operations; construct(f, path, r); sread; destruct; destruct");
+    VH_CATCH(construct(f, $S(path), $S("w")), exc);
+    if (exc) { vh_violation("C20:stack-file:construct-raised", "construct raised %s", vh_exc_name(exc)); break; }
+    swrite(f, "stack file", 10);
+    VH_CATCH(destruct(f), exc);
+    vh_evals(3);
+    if (exc) { vh_violation("C20:stack-file:destruct-raised", "destruct of an open File raised %s", vh_exc_name(exc)); }
+    if (opens - o0 != 1 || closes - c0 != 1) { vh_violation("C20:handle:destructor-did-not-close-exactly-once", "%ld opens, %ld closes after destruct of an open File", opens - o0, closes - c0); }
+    closed_file_ops(f, "after destruct");
+    if (round == 1) { VH_CATCH(destruct(f), exc); if (exc) { vh_violation("C20:stack-file:destruct-raised", "second destruct raised %s", vh_exc_name(exc)); } }
+    VH_CATCH(construct(f, $S(path), $S("r")), exc);
+    if (exc) { vh_violation("C20:stack-file:construct-raised", "construct after destruct raised %s", vh_exc_name(exc)); break; }
+    char back[16]; memset(back, 0, sizeof back);
+    size_t got = sread(f, back, 10);
+    vh_eval();
+    if (got == 0 || memcmp(back, "stack file", 10) != 0) { vh_violation("C20:roundtrip:file-contents-differ", "a File constructed again after destruct read back \"%.10s\"", back); }
+    destruct(f);
+    VH_CATCH(destruct(f), exc);
+    vh_evals(2);
+    if (exc) { vh_violation("C20:stack-file:destruct-raised", "destruct of a File that is not open raised %s", vh_exc_name(exc)); }
+    if (opens - o0 != 2 || closes - c0 != 2) { vh_violation("C20:handle:opens-and-closes-differ", "%ld opens, %ld closes over two construct/destruct rounds", opens - o0, closes - c0); }
+    if (handles_open() != 0) { vh_violation("C20:handle:stream-left-open-at-the-end", "handle open after destruct"); memset(open_handles, 0, sizeof open_handles); }
+    vh_count("stack_file_lifecycles");
+  }
   /* sclose twice, del after sclose */
   {
     var f = new(File, $S(path), $S("r"));
